@@ -3,6 +3,8 @@ package main
 import (
 	"fmt"
 	"net"
+	"strconv"
+	"strings"
 	"sync"
 	"time"
 
@@ -296,6 +298,127 @@ func suiteC13Big(c *Ctx) {
 				c.Cov.Fail(Failure{Kind: "violated", Clause: "bucket-ids-increase", Signature: "c13big-ids-do-not-increase", Line: line,
 					Reply: fmt.Sprintf("bucket ids of the first, the last finite and the last bucket: %q %q %q - not one length, or not increasing as byte strings", a, b, z)})
 			}
+			c.Cov.Eval(line, true)
+		}
+	}
+	c.Cov.Traces = c.Cov.Evaluations
+}
+
+// c13pool: the reporter's pool of tag arrays holds 4096 of them; a metric allocated early must keep its tags when
+// thousands of further tag sets have been converted on the same reporter (an array handed back to the pool while a
+// metric still uses it is handed out again only after the pool has gone round).  Two early metrics carry tag sets
+// with ONE tag-cache key ({a: "b=c"} and {"a=b": "c"}: the cache hashes name=value), so the second takes the cache's
+// collision path.
+func init() {
+	register("c13pool", "C13", "", suiteC13Pool)
+}
+
+func suiteC13Pool(c *Ctx) {
+	c.Cov.Rule = "an M3 reporter (both protocols, two orders of the colliding pair): counters with the tag sets {a: b=c} and {a=b: c} (one tag-cache key) and a plain one are allocated first, then 4200 / 9000 counters with distinct tag sets (more than the 4096 tag arrays of the pool), then the early counters are reported; oracle: they arrive with their own tags, and no datagram exceeds MaxPacketSizeBytes; every case nontrivial"
+	for _, p := range []m3.Protocol{m3.Compact, m3.Binary} {
+		for _, many := range []int{4200, 9000} {
+			for order := 0; order < 2; order++ {
+				sink := newM3Sink()
+				const maxPkt = 1440
+				rep, err := m3.NewReporter(m3.Options{HostPorts: []string{sink.addr()}, Service: "svc", Env: "test", Protocol: p, MaxQueueSize: 256, MaxPacketSizeBytes: maxPkt})
+				must(err)
+				sets := []map[string]string{{"a": "b=c"}, {"a=b": "c"}, {"plain": "x"}}
+				if order == 1 {
+					sets[0], sets[1] = sets[1], sets[0]
+				}
+				early := make([]tally.CachedCount, len(sets))
+				for i, t := range sets {
+					early[i] = rep.AllocateCounter(fmt.Sprintf("early%d", i), t)
+				}
+				for i := 0; i < many; i++ {
+					rep.AllocateCounter("filler", map[string]string{"k": strconv.Itoa(i), "some-longer-tag-name": "some-longer-tag-value-" + strconv.Itoa(i)})
+				}
+				for i := range early {
+					early[i].ReportCount(int64(i + 1))
+				}
+				rep.Flush()
+				rep.Close()
+				sink.settle(150*time.Millisecond, 5*time.Second)
+				proto := "c"
+				if p == m3.Binary {
+					proto = "b"
+				}
+				line := fmt.Sprintf("protocol=%s order=%d: counters early0..2 with tags %v allocated, then %d counters with distinct tag sets, then the early ones reported", proto, order, sets, many)
+				seen := map[string]bool{}
+				for _, pk := range sink.close() {
+					if len(pk) > maxPkt {
+						c.Cov.Fail(Failure{Kind: "violated", Clause: "datagram-le-max", Signature: "c13pool-datagram-too-large", Line: line, Reply: fmt.Sprintf("a datagram of %d bytes, MaxPacketSizeBytes %d", len(pk), maxPkt)})
+					}
+					_, batch, err := goDecodeMessage(proto, pk)
+					if err != nil {
+						continue
+					}
+					for _, m := range batch.Metrics {
+						if !strings.HasPrefix(m.Name, "early") {
+							continue
+						}
+						i, _ := strconv.Atoi(m.Name[5:])
+						seen[m.Name] = true
+						got := map[string]string{}
+						for _, t := range m.Tags {
+							got[t.Name] = t.Value
+						}
+						if i < 0 || i >= len(sets) || mapHex(got) != mapHex(sets[i]) || len(m.Tags) != len(sets[i]) {
+							c.Cov.Fail(Failure{Kind: "violated", Clause: "tags-intact", Signature: "c13pool-early-metric-carries-other-tags", Line: line,
+								Reply: fmt.Sprintf("%s was allocated with %v and arrives with %v", m.Name, sets[i%len(sets)], m.Tags)})
+						}
+					}
+				}
+				if len(seen) != len(sets) {
+					c.Cov.Fail(Failure{Kind: "violated", Clause: "delivery-exactly-once", Signature: "c13pool-missing", Line: line, Reply: fmt.Sprintf("early metrics received: %v", seen)})
+				}
+				c.Cov.Eval(line, true)
+			}
+		}
+	}
+	c.Cov.Traces = c.Cov.Evaluations
+}
+
+// c14big: a metric whose serialized size exceeds what one packet can take (a tag value of 2000 / 40000 bytes with
+// MaxPacketSizeBytes 1440 / the default) is reported, more metrics follow, then Flush and Close: every call returns
+// (no deadlock, no goroutine spinning), Close returns nil and a second Close an error.
+func init() {
+	register("c14big", "C14", "", suiteC14Big)
+}
+
+func suiteC14Big(c *Ctx) {
+	c.Cov.Rule = "an M3 reporter (both protocols; MaxPacketSizeBytes 1440 and the default) is handed a counter whose tag value alone is larger than a packet, then ordinary counters, Flush, Close, Close: all calls return within 6 s, the second Close reports an error; every case nontrivial"
+	for _, p := range []m3.Protocol{m3.Compact, m3.Binary} {
+		for _, cfg := range [][2]int{{1440, 2000}, {0, 40000}} {
+			sink := newM3Sink()
+			opts := m3.Options{HostPorts: []string{sink.addr()}, Service: "svc", Env: "test", Protocol: p, MaxQueueSize: 16}
+			if cfg[0] > 0 {
+				opts.MaxPacketSizeBytes = int32(cfg[0])
+			}
+			rep, err := m3.NewReporter(opts)
+			must(err)
+			line := fmt.Sprintf("protocol=%v MaxPacketSizeBytes=%d: a counter with a tag value of %d bytes, 40 ordinary counters, Flush, Close, Close", p, cfg[0], cfg[1])
+			done := make(chan string, 1)
+			go func() {
+				big := rep.AllocateCounter("big", map[string]string{"payload": strings.Repeat("x", cfg[1])})
+				big.ReportCount(1)
+				for i := 0; i < 40; i++ {
+					rep.AllocateCounter("small", map[string]string{"i": strconv.Itoa(i)}).ReportCount(1)
+				}
+				rep.Flush()
+				e1 := rep.Close()
+				e2 := rep.Close()
+				done <- fmt.Sprintf("first Close: %v; second Close: error=%v", e1, e2 != nil)
+			}()
+			select {
+			case r := <-done:
+				if r != "first Close: <nil>; second Close: error=true" {
+					c.Cov.Fail(Failure{Kind: "violated", Clause: "second-close-errors", Signature: "c14big-close-results", Line: line, Reply: r})
+				}
+			case <-time.After(6 * time.Second):
+				c.Cov.Fail(Failure{Kind: "violated", Clause: "no-deadlock", Signature: "c14big-calls-do-not-return", Line: line, Reply: "report / Flush / Close have not returned after 6 s"})
+			}
+			sink.close()
 			c.Cov.Eval(line, true)
 		}
 	}
